@@ -407,7 +407,12 @@ def _twice(fn):
     """disks() peeked at, then enumerated twice on the same object: the answer may not depend on earlier calls."""
     it = iter(fn())
     next(it, None)
-    a = list(fn())
+    first = fn()
+    a = list(first)
+    if isinstance(first, list):
+        # what the caller does with an answer does not change the next one
+        first.clear()
+        first.append("<changed by the caller>")
     b = list(fn())
     if a != b:
         return ["<second enumeration differs>", a, b]
